@@ -4,7 +4,8 @@
    Composition of C09 (Model/Resolvers.v) and C07 (Model/Imports.v, corresponded). *)
 From Coq Require Import List String ZArith NArith Bool.
 Import ListNotations.
-From DV Require Import Model.Tree Model.Resolvers Model.Imports Proofs.ResolverProofs Proofs.ImportsProofs.
+From DV Require Import Model.Tree Model.Resolvers Model.Imports Proofs.ResolverProofs Proofs.ImportsProofs Proofs.ImportsExact
+  Model.Decision Model.DecisionInterp Gen.DecisionSrc Proofs.DecisionProofs.
 Local Open Scope string_scope.
 Local Open Scope list_scope.
 
@@ -16,6 +17,15 @@ Theorem C10_reference_travels_as_import_path :
   forall local r parent_dot_field, in_avoid parent_dot_field = false ->
   resolve_path false local false parent_dot_field (gotypes_resolve (occurrence_of local r)) = expected_path local r.
 Proof. exact gotypes_exact. Qed.
+
+(* (1') ... and that is what the code does: the translated sources of gotypes.ResolveIdent and of
+   resolvePath (Gen/DecisionSrc.v, regenerated on every run) compute these models on every
+   abstract state *)
+Theorem C10_resolver_sources_compute_the_models :
+  (forall g, out_string (gotypes_syms g) (run (fun p => str_case p (gotypes_preds g) false) gotypes_resolveident_src) = gotypes_resolve (g_occ g)) /\
+  (forall p, out_string (resolvepath_syms p) (run (fun q => str_case q (resolvepath_preds p) false) resolvepath_src) = resolvepath_model p) /\
+  gotypes_src_agrees gotypes_resolveident_src && resolvepath_src_agrees resolvepath_src = true.
+Proof. split; [exact gotypes_source_is_model|]. split; [exact resolvepath_source_is_model|]. vm_compute. reflexivity. Qed.
 
 (* (2) In the target file, whatever it imported, aliased, dot-imported or omitted: every
    referenced path is imported, after the update, by a spec carrying the alias chosen for it. *)
@@ -45,6 +55,23 @@ Proof.
   apply names_distinct; [exact Hnd|intros; reflexivity|constructor].
 Qed.
 
+(* (2)-(4) as one statement about a whole update of the target file: every path the moved code
+   refers to is imported by a spec that binds exactly the qualifier the restored code writes
+   (bare under a dot-import) -- C07_every_reference_is_bound_by_its_import *)
+Theorem C10_moved_reference_is_bound_in_the_target :
+  forall resolve local alias all_blocks used bs del names nb added,
+  update_imports resolve local alias all_blocks used = Done bs del names nb added ->
+  let blocks := filter (fun b => negb (is_cgo_only b)) all_blocks in
+  NoDup (map b_id blocks) -> (forall b, In b blocks -> b_id b <> 0%N) ->
+  (forall p, p <> "C" -> In p (spec_paths all_blocks) -> In p (spec_paths blocks)) ->
+  (forall p n, resolve p = Some n -> n <> "") ->
+  forall p, In p (in_use local used) -> p <> "C" ->
+  exists b s, In b bs /\ In s (b_specs b) /\ s_path s = p /\
+    ((eff_alias (eff_of local alias all_blocks used) p = "." /\ s_name s = "." /\ rendered_qualifier local names p = None) \/
+     (eff_alias (eff_of local alias all_blocks used) p <> "." /\
+      exists n, n <> "" /\ rendered_qualifier local names p = Some n /\ bound_name resolve s = Some n)).
+Proof. exact reference_is_bound. Qed.
+
 (* the moved reference in a file that already uses the name for another package *)
 Example C10_nonvacuous :
   let blocks := [mkBlock [mkSpec "root/x/jsoniter" "json" 1 SNewLine SNewLine] false 100] in
@@ -59,6 +86,8 @@ Example C10_nonvacuous :
 Proof. vm_compute. repeat split. Qed.
 
 Print Assumptions C10_reference_travels_as_import_path.
+Print Assumptions C10_resolver_sources_compute_the_models.
+Print Assumptions C10_moved_reference_is_bound_in_the_target.
 Print Assumptions C10_referenced_path_is_imported_in_target.
 Print Assumptions C10_import_alias_binds_the_qualifier.
 Print Assumptions C10_qualifiers_are_unambiguous.
